@@ -144,3 +144,37 @@ def week_guard(i: int) -> bool:
         finally:
             v2version.parse_version_info = saved
     return True
+
+
+def cal_gt_is_date_order(y1: int, j1: int, y2: int, j2: int) -> bool:
+    """full-date versions: the real _is_cal_gt on the nine derived fields of two dates is exactly 'first date is later'
+    (so a current version in the future keeps its calendar parts, and only then)
+    pre: YLO <= y1 <= YHI + 1 and YLO <= y2 <= YHI + 1 and 1 <= j1 <= 366 and 1 <= j2 <= 366
+    post: _
+    """
+    if j1 > symcal.days_in_year(y1) or j2 > symcal.days_in_year(y2):
+        return True
+    a = version.V2CalendarInfo(**symcal.fields(y1, j1))
+    b = version.V2CalendarInfo(**symcal.fields(y2, j2))
+    return v2version._is_cal_gt(a, b) == ((y1, j1) > (y2, j2))
+
+
+def fields_monotone_any(y1: int, j1: int, y2: int, j2: int) -> bool:
+    """any two dates d1 <= d2 (not only neighbours): the field tuple COMBO of d1 is <= that of d2, and the real _is_cal_gt between a
+    version carrying only these fields and today's full calendar info is False (a version of an earlier day is never 'from the future')
+    pre: YLO <= y1 <= YHI + 1 and YLO <= y2 <= YHI + 1 and 1 <= j1 <= 366 and 1 <= j2 <= 366 and (y1, j1) <= (y2, j2)
+    post: _
+    """
+    if j1 > symcal.days_in_year(y1) or j2 > symcal.days_in_year(y2):
+        return True
+    with symcal.Bound():
+        a, b = v2version.cal_info(symcal.SymDate(y1, doy=j1)), v2version.cal_info(symcal.SymDate(y2, doy=j2))
+    ta = [getattr(a, f) for f in COMBO]
+    tb = [getattr(b, f) for f in COMBO]
+    if not ta <= tb:
+        return False
+    none = {f: None for f in rm.CAL_FIELDS}
+    old = BASE._replace(**none)._replace(**{f: getattr(a, f) for f in COMBO})
+    if "month" in COMBO and "quarter" not in COMBO:
+        old = old._replace(quarter=a.quarter)      # the reader derives the quarter from the month
+    return v2version._is_cal_gt(old, b) is False
